@@ -443,6 +443,7 @@ func (vc *VC) QueryOpt(o *Obligation, wantModel bool, groundOnly bool) string {
 	}
 	addSyms(o.Goal.S)
 	var as []assumption
+	var axioms []assumption
 	seen := map[string]bool{}
 	for _, a := range vc.assumes {
 		if a.seq < o.Seq && !seen[a.text] {
@@ -450,9 +451,35 @@ func (vc *VC) QueryOpt(o *Obligation, wantModel bool, groundOnly bool) string {
 				continue
 			}
 			seen[a.text] = true
+			if a.why == "axiom" {
+				axioms = append(axioms, a) // global axioms over spec functions: only when relevant
+				continue
+			}
 			as = append(as, a)
 			addSyms(a.text)
 		}
+	}
+	// an axiom is relevant when it mentions a spec function the query already uses (fixpoint)
+	for changed := true; changed; {
+		changed = false
+		var rest []assumption
+		for _, a := range axioms {
+			rel := false
+			for _, sym := range symbolsOf(a.text) {
+				if strings.HasPrefix(sym, "spec.") && need[sym] {
+					rel = true
+					break
+				}
+			}
+			if rel {
+				as = append(as, a)
+				addSyms(a.text)
+				changed = true
+			} else {
+				rest = append(rest, a)
+			}
+		}
+		axioms = rest
 	}
 	for len(work) > 0 {
 		s := work[len(work)-1]
@@ -506,7 +533,15 @@ func (vc *VC) QueryOpt(o *Obligation, wantModel bool, groundOnly bool) string {
 	}
 	sb.WriteString("(check-sat)\n")
 	if wantModel && len(o.ModelOf) > 0 {
-		sb.WriteString("(get-value (" + strings.Join(o.ModelOf, " ") + "))\n")
+		var ms []string
+		for _, m := range o.ModelOf {
+			if need[m] {
+				ms = append(ms, m)
+			}
+		}
+		if len(ms) > 0 {
+			sb.WriteString("(get-value (" + strings.Join(ms, " ") + "))\n")
+		}
 	}
 	return sb.String()
 }
